@@ -44,6 +44,9 @@ func evalC20(c pipeCase) *Failure {
 	}
 	o := connsim.Serve(srv, conn, serveTimeout())
 	what := fmt.Sprintf("pipeline %v cut %d password %q", c.strings(), c.Cut, c.Password)
+	if len(c.Odd) > 0 {
+		what += fmt.Sprintf(" with %v sent before requests %v", c.Odd, c.OddPos)
+	}
 	if o.TimedOut {
 		return stallFailure("c20", what)
 	}
@@ -160,7 +163,7 @@ func spanKind(s doubles.Span) string {
 func init() { register("c20.pipe", evalC20) }
 
 func TestC20(t *testing.T) {
-	h := newHarness(t, "C20", "the pipelines of C03/C10 (every command with valid, invalid, missing and surplus arguments, unknown commands, QUIT, composed commands, scripted handler errors) "+
+	h := newHarness(t, "C20", "the pipelines of C03/C10 (every command with valid, invalid, missing and surplus arguments, unknown commands, QUIT, composed commands, scripted handler errors), optionally interspersed with requests that carry no command (status line, integer, bulk, error, empty array, array with a null/integer/nested first element) "+
 		"x end of stream at a random byte offset (request boundary or inside a request) x reply writes failing after N bytes (the peer is gone) x optionally a required password (unauthorized requests, AUTH with right/wrong password); a tracer double records span start/finish in the same "+
 		"sequence-numbered log as handler calls and connection writes. Oracle: spans form a forest, each finished exactly once, children nested in parents, roots and siblings do not overlap, every write/handler call inside exactly one root, at most one reply per root. "+
 		"Non-trivial: the pipeline has a request whose outcome is not plain success (argument error, unknown, unauthorized, QUIT, cut, handler error, failed reply write) or a composed command. Distinct = distinct (stream, cut, password, script).")
@@ -184,6 +187,17 @@ func TestC20(t *testing.T) {
 			c.Sizes = nil
 			data, ends = resp.EncodeAll(c.values())
 		}
+		if rapid.IntRange(0, 3).Draw(rt, "odd") == 0 {
+			// requests that carry no command at all
+			for i, k := 0, rapid.IntRange(1, 2).Draw(rt, "nodd"); i < k; i++ {
+				c.OddPos = append(c.OddPos, rapid.IntRange(0, len(c.Reqs)).Draw(rt, "oddpos"))
+				c.Odd = append(c.Odd, rapid.SampledFrom([]resp.Value{resp.S("PING"), resp.I(1), resp.B("PING"), resp.Nil(), resp.E("ERR x"), resp.A(), resp.A(resp.Nil()), resp.A(resp.I(7), resp.B("x")),
+					resp.A(resp.A(resp.B("PING"))), resp.A(resp.A()), resp.A(resp.S("PING"))}).Draw(rt, "oddval"))
+			}
+			labels["no-command-request"] = true
+			c.Sizes = nil
+			data, ends = resp.EncodeAll(c.values())
+		}
 		switch rapid.IntRange(0, 3).Draw(rt, "cutcls") {
 		case 0:
 			c.Cut = rapid.IntRange(1, len(data)).Draw(rt, "cut")
@@ -197,7 +211,7 @@ func TestC20(t *testing.T) {
 			c.WriteFailAfter = &n
 			labels["reply-write-fails"] = true
 		}
-		nt := labels["reply-write-fails"] || labels["ill-formed"] || labels["unknown-command"] || labels["quit-last"] || labels["quit-not-last"] || labels["handler-error"] || labels["composed-command"] || labels["password-required"] || labels["cut-anywhere"]
+		nt := labels["reply-write-fails"] || labels["ill-formed"] || labels["unknown-command"] || labels["quit-last"] || labels["quit-not-last"] || labels["handler-error"] || labels["composed-command"] || labels["password-required"] || labels["cut-anywhere"] || labels["no-command-request"]
 		var cl []string
 		for l := range labels {
 			cl = append(cl, l)
@@ -206,7 +220,7 @@ func TestC20(t *testing.T) {
 		if c.WriteFailAfter != nil {
 			wf = *c.WriteFailAfter
 		}
-		canon := append(append([]byte{}, data...), []byte(fmt.Sprint(c.Sizes, c.ErrCalls, c.NilCalls, c.GetMode, c.Cut, c.Password, wf))...)
+		canon := append(append([]byte{}, data...), []byte(fmt.Sprint(c.OddPos, c.Sizes, c.ErrCalls, c.NilCalls, c.GetMode, c.Cut, c.Password, wf))...)
 		h.Col.Case(nt, canon, cl...)
 		if h.Col.WantSample() {
 			h.Col.Sample(map[string]any{"requests": c.strings(), "cut": c.Cut, "password": c.Password})
